@@ -54,7 +54,8 @@ func (c *Conn) addImport(id importID) *capnp.Client {
 		ent.wireRefs++
 		client, ok := ent.wc.AddRef()
 		if !ok {
-			ent.generation++
+			c.importGeneration++
+			ent.generation = c.importGeneration
 			client = capnp.NewClient(&importClient{
 				c:          c,
 				id:         id,
@@ -64,13 +65,19 @@ func (c *Conn) addImport(id importID) *capnp.Client {
 		}
 		return client
 	}
+	// Generations are never reused, not even by a later entry for the
+	// same ID: the Shutdown of a client of an earlier entry may still
+	// be waiting for c.mu, and must not take the new entry for its own.
+	c.importGeneration++
 	client := capnp.NewClient(&importClient{
-		c:  c,
-		id: id,
+		c:          c,
+		id:         id,
+		generation: c.importGeneration,
 	})
 	c.imports[id] = &impent{
-		wc:       client.WeakRef(),
-		wireRefs: 1,
+		wc:         client.WeakRef(),
+		wireRefs:   1,
+		generation: c.importGeneration,
 	}
 	return client
 }
